@@ -224,6 +224,14 @@ def param_cells(mk, tier="quick"):
                 c["contact_point"] = cp
                 c["baseline"] = b
                 cells.append(c)
+    if "R" in base:
+        # tip radii in the nm range (sharp probes) are inside the bounds
+        for R in (5e-8, 2e-8):
+            for cp in cps[:2]:
+                c = dict(cells[len(cells) // 2])
+                c["R"] = R
+                c["contact_point"] = cp
+                cells.append(c)
     return cells
 
 
@@ -236,6 +244,9 @@ def abscissae(cp, R):
         "len2": np.array([cp + 1e-7, cp - 2e-7]),
         "len3": np.array([cp + 1e-7, cp - 1e-7, cp - 2e-7]),
         "long": cp - np.linspace(-1e-6, min(R, 2e-6), 900),
+        # the whole range of depths the monotonicity clause is about,
+        # whatever the radius is
+        "upto-R": cp - np.linspace(-0.05 * R, R, 700),
         # measured abscissae are noisy: clearly oriented, but the first
         # (and last) two samples are locally out of order
         "descending-noisy-ends": _swap_ends(desc),
@@ -388,7 +399,7 @@ def _contract_case(case):
                 viol("contact-continuous", "out-of-contact", "force != "
                      f"baseline at and before contact: {F0 - b}")
         # non-decreasing with indentation depth up to the tip radius
-        if shipped and aname == "long":
+        if shipped and aname in ("long", "upto-R"):
             sel = (cp - x >= 0) & (cp - x <= R)
             Fd = F[sel]
             if np.any(np.diff(Fd) < -4 * ulp(np.abs(Fd[1:]))):
